@@ -106,8 +106,6 @@ ToElem(F, et, a) ==
 RECURSIVE ConcatDg(_, _)
 ConcatDg(rs, keys) == IF keys = <<>> THEN <<>> ELSE rs[Head(keys)].dg \o ConcatDg(rs, Tail(keys))
 
-SetToSeq(S) == CHOOSE s \in [1..Cardinality(S) -> S] : \A i, j \in 1..Cardinality(S) : i # j => s[i] # s[j]
-
 \* genListOrMap
 ToCollField(F, obj, acc) ==
   IF F.attr \notin DOMAIN acc.tf.at THEN [acc EXCEPT !.dg = Append(@, Diag("writeMissing", F.path))]
@@ -118,7 +116,7 @@ ToCollField(F, obj, acc) ==
       src == SrcVal(F, obj)
       n == IF src.t = "seq" THEN Len(src.e) ELSE IF src.t = "map" THEN Cardinality(DOMAIN src.m) ELSE 0
       cur == CurAttr(acc.tf, F.attr)
-      mkList == SeqOf(n, VNilIf)
+      mkList == Fill(n, VNilIf)
       c0 == IF cur.k = want
             THEN (IF cur.elemsnil
                   THEN (IF islist THEN [cur EXCEPT !.elems = mkList, !.elemsnil = FALSE]
